@@ -60,7 +60,9 @@ def cleanup():
 
 def tlc_cmd(module, cfg=None, workers=1, extra=(), xmx="3g"):
     # SerialGC + C1-only JIT: measured 12 s vs 20 s (ParallelGC) for 16 concurrent short event-validation runs
-    return ["java", "-XX:+UseSerialGC", "-XX:TieredStopAtLevel=1", "-Xss512m", f"-Xmx{xmx}", "-cp", TLA_CP, "tlc2.TLC",
+    # small young generation: measured 1.6-2x faster for 16 concurrent JVMs (default young gen of a 3g heap thrashes)
+    return ["java", "-XX:+UseSerialGC", "-XX:TieredStopAtLevel=1", "-Xmn24m", "-Xss512m", f"-Xmx{xmx}", "-cp", TLA_CP,
+            "tlc2.TLC",
             "-workers", str(workers), "-noGenerateSpecTE", *extra,
             *(["-config", cfg] if cfg else []), module]
 
@@ -222,8 +224,11 @@ class Result:
             json.dump(ev, f, indent=1, default=str)
         for fid, (what, cnt) in sorted(self.known.items()):
             print(f"KNOWN-FINDING: property={self.pid} {fid}: {what} ({cnt} instance(s) this run)")
+        os.makedirs(REPLAY, exist_ok=True)
+        for fn in os.listdir(REPLAY):
+            if fn.startswith(f"{self.pid}-{self.tier}-"):
+                os.unlink(os.path.join(REPLAY, fn))
         if self.violations:
-            os.makedirs(REPLAY, exist_ok=True)
             for i, v in enumerate(self.violations[:5]):
                 path = os.path.join(REPLAY, f"{self.pid}-{self.tier}-{i}.json")
                 with open(path, "w") as f:
